@@ -3,7 +3,7 @@ from checks_common import three
 
 CHECK = {
     # tsan: quiescent-point reads only (DESIGN §4); asan/plain additionally run the concurrent-reader episodes
-    "runs": three("c19_counters", [], scales=(0.5, 0.5, 1.5)),
+    "runs": [dict(r, scale_quick=round(r["scale"] * 3, 3)) for r in three("c19_counters", [], scales=(0.5, 0.5, 1.5))],
     "design_ref": "DESIGN.md §5 C19",
     "technique": "long histories of thread generations (thread-id reuse) and counter-instance generations "
                  "(construct/destroy/move/reset, compact slot and cache-line recycling) against exact shadow totals; "
